@@ -40,30 +40,36 @@ static void onCrash(int sig)
 }
 
 // ------------------------------------------------------------------ fixed concrete material
-static const int NMAX = 5;
-static const double SX[NMAX] = {0.31, 1.72, 2.55, 0.93, 2.11};
-static const double SY[NMAX] = {0.42, 0.27, 1.61, 2.33, 1.18};
-static const double SZ[2][NMAX] = {{1.2, -0.4, 0.7, 2.1, -1.3}, {0.3, 1.4, -0.8, 0.5, 1.9}};
-static const double SF[NMAX] = {0.8, 1.9, 2.4, 0.6, 1.5};
-static const double SV[2][NMAX] = {{0.11, 0.23, 0.07, 0.31, 0.19}, {0.29, 0.05, 0.17, 0.13, 0.37}};
-static const double FARX[2] = {55.5, -47.3}, FARY[2] = {61.2, 38.4};   // samples far outside the moving radius
-static const double TX[2] = {1.45, 0.77}, TY[2] = {1.05, 1.86};        // point targets
+static const int NMAX = 7;
+static const double SC[3][NMAX] = {{0.31, 1.72, 2.55, 0.93, 2.11, 1.37, 2.83},
+                                   {0.42, 0.27, 1.61, 2.33, 1.18, 2.02, 0.74},
+                                   {0.15, 0.92, 0.38, 0.61, 0.83, 0.27, 0.49}};
+static const double SZ[2][NMAX] = {{1.2, -0.4, 0.7, 2.1, -1.3, 0.45, 1.65}, {0.3, 1.4, -0.8, 0.5, 1.9, -0.25, 0.95}};
+static const double SF[NMAX] = {0.8, 1.9, 2.4, 0.6, 1.5, 1.1, 2.2};
+static const double SV[2][NMAX] = {{0.11, 0.23, 0.07, 0.31, 0.19, 0.15, 0.27}, {0.29, 0.05, 0.17, 0.13, 0.37, 0.21, 0.09}};
+static const double FARC[2][3] = {{55.5, 61.2, 48.8}, {-47.3, 38.4, -52.6}};   // samples far outside the moving radius
+static const double TC[2][3] = {{1.45, 1.05, 0.55}, {0.77, 1.86, 0.33}};       // point targets
 static const double MEANS[2] = {0.35, -0.6};
+static const double SHIFT[3] = {100.5, -37.25, 12.75};
 
 struct Setup
 {
   Db* dbin = nullptr; Db* dbout = nullptr; Model* model = nullptr; ANeigh* neigh = nullptr;
-  int nvar, ns, nfar; bool verr; std::string drift, target, neighKind; int imodel;
+  int nvar, ns, nfar, ndim; bool verr; std::string drift, target, neighKind; int imodel;
   std::vector<int> order;           // sample s (0-based, spec numbering) -> rank in dbin
-  double shiftx = 0, shifty = 0;
+  double shift[3] = {0, 0, 0};
   ~Setup() { delete dbin; delete dbout; delete model; delete neigh; }
 };
 
-static double extdrift(double x, double y) { return 0.7 + 0.3 * x - 0.2 * y + 0.1 * x * y; }
-
-static Model* makeModel(int imodel, int nvar, const std::string& drift)
+static double extdrift(const double* x, int ndim)
 {
-  SpaceRN space(2);
+  double y = ndim >= 2 ? x[1] : 0.4, z = ndim >= 3 ? x[2] : 0.2;
+  return 0.7 + 0.3 * x[0] - 0.2 * y + 0.1 * x[0] * y + 0.15 * z;
+}
+
+static Model* makeModel(int imodel, int nvar, const std::string& drift, int ndim)
+{
+  SpaceRN space(ndim);
   Model* m = nullptr;
   VectorDouble sills1 = {1.5}, sills2 = {1.5, 0.5, 0.5, 1.1};
   const VectorDouble& sills = nvar == 1 ? sills1 : sills2;
@@ -71,7 +77,9 @@ static Model* makeModel(int imodel, int nvar, const std::string& drift)
     m = Model::createFromParam(ECov::SPHERICAL, 4.0, 1., 1., VectorDouble(), sills, VectorDouble(), &space);
   else if (imodel == 1)
   {
-    m = Model::createFromParam(ECov::EXPONENTIAL, 1., 1., 1., {3.0, 1.2}, sills, {35., 0.}, &space);
+    VectorDouble ranges = {3.0, 1.2, 2.1}; ranges.resize(ndim);
+    VectorDouble angles = ndim == 1 ? VectorDouble() : (ndim == 2 ? VectorDouble{35., 0.} : VectorDouble{35., 20., 10.});
+    m = Model::createFromParam(ECov::EXPONENTIAL, 1., 1., 1., ranges, sills, angles, &space);
     VectorDouble nug = nvar == 1 ? VectorDouble{0.3} : VectorDouble{0.3, 0.05, 0.05, 0.2};
     m->addCovFromParam(ECov::NUGGET, 0., 1., 1., VectorDouble(), nug);
   }
@@ -84,6 +92,7 @@ static Model* makeModel(int imodel, int nvar, const std::string& drift)
   if (drift == "SK") { VectorDouble means(MEANS, MEANS + nvar); m->setMeans(means); }
   else if (drift == "OK") m->setDriftIRF(0);
   else if (drift == "LIN") m->setDriftIRF(1);
+  else if (drift == "QUAD") m->setDriftIRF(2);
   else if (drift == "EXT") m->setDriftIRF(0, 1);
   return m;
 }
@@ -92,13 +101,16 @@ static Model* makeModel(int imodel, int nvar, const std::string& drift)
 static void build(Setup& S, const Value& cfg, const std::vector<int>& perm, const std::vector<std::vector<double>>* zover = nullptr)
 {
   S.nvar = cfg.at("nvar").i(); S.ns = cfg.at("ns").i(); S.verr = cfg.at("verr").boolean();
-  S.drift = cfg.at("drift").s(); S.target = cfg.at("target").s();
+  S.drift = cfg.at("drift").s(); S.target = cfg.at("target").s(); S.ndim = cfg.at("ndim").i();
+  int nd = S.ndim;
+  defineDefaultSpace(ESpaceType::RN, nd);
   S.nfar = S.neighKind == "moving" ? 2 : 0;
   int nech = S.ns + S.nfar;
-  VectorDouble x(nech), y(nech), f(nech);
+  std::vector<VectorDouble> x(nd, VectorDouble(nech));
+  VectorDouble f(nech);
   std::vector<VectorDouble> z(S.nvar, VectorDouble(nech)), v(S.nvar, VectorDouble(nech));
   S.order.assign(S.ns, 0);
-  // the far samples are interleaved first / last to make sure the neighbourhood ranks are not trivially 0..ns-1
+  // the far samples are interleaved first / last so that the neighbourhood ranks are not trivially 0..ns-1
   int pos = 0;
   std::vector<int> slot(nech, -1);      // rank -> spec sample (or -1 far)
   if (S.nfar > 0) slot[pos++] = -1;
@@ -110,12 +122,14 @@ static void build(Setup& S, const Value& cfg, const std::vector<int>& perm, cons
     int s = slot[r];
     if (s < 0)
     {
-      x[r] = FARX[ifar] + S.shiftx; y[r] = FARY[ifar] + S.shifty; ifar++;
+      for (int d = 0; d < nd; d++) x[d][r] = FARC[ifar][d] + S.shift[d];
+      ifar++;
       for (int iv = 0; iv < S.nvar; iv++) { z[iv][r] = 3.3 + iv; v[iv][r] = 0.2; }
+      f[r] = 1.234;
     }
     else
     {
-      x[r] = SX[s] + S.shiftx; y[r] = SY[s] + S.shifty;
+      for (int d = 0; d < nd; d++) x[d][r] = SC[d][s] + S.shift[d];
       for (int iv = 0; iv < S.nvar; iv++)
       {
         bool def = cfg.at("def")[s][iv].boolean();
@@ -123,13 +137,12 @@ static void build(Setup& S, const Value& cfg, const std::vector<int>& perm, cons
         z[iv][r] = def ? val : TEST;
         v[iv][r] = SV[iv][s];
       }
+      f[r] = SF[s];
     }
-    f[r] = extdrift(x[r] - S.shiftx, y[r] - S.shifty);
-    if (s >= 0) f[r] = SF[s];
   }
   VectorDouble tab; VectorString names, locs;
   auto add = [&](const VectorDouble& c, const std::string& n, const std::string& l) { for (double d : c) tab.push_back(d); names.push_back(n); locs.push_back(l); };
-  add(x, "x1", "x1"); add(y, "x2", "x2");
+  for (int d = 0; d < nd; d++) add(x[d], "x" + std::to_string(d + 1), "x" + std::to_string(d + 1));
   for (int iv = 0; iv < S.nvar; iv++) add(z[iv], "z" + std::to_string(iv + 1), "z" + std::to_string(iv + 1));
   if (S.verr) for (int iv = 0; iv < S.nvar; iv++) add(v[iv], "v" + std::to_string(iv + 1), "v" + std::to_string(iv + 1));
   if (S.drift == "EXT") add(f, "ext", "f1");
@@ -137,56 +150,90 @@ static void build(Setup& S, const Value& cfg, const std::vector<int>& perm, cons
 
   if (S.target == "block")
   {
-    DbGrid* g = DbGrid::create({2, 1}, {0.9, 0.7}, {TX[0] + S.shiftx, TY[0] + S.shifty});
+    VectorInt nx(nd, 1); nx[0] = 2;
+    VectorDouble dx = {0.9, 0.7, 0.5}, x0(nd);
+    dx.resize(nd);
+    for (int d = 0; d < nd; d++) x0[d] = TC[0][d] + S.shift[d];
+    DbGrid* g = DbGrid::create(nx, dx, x0);
     if (S.drift == "EXT")
     {
       VectorDouble fo(2);
-      for (int i = 0; i < 2; i++) fo[i] = extdrift(g->getCoordinate(i, 0) - S.shiftx, g->getCoordinate(i, 1) - S.shifty);
+      for (int i = 0; i < 2; i++)
+      {
+        double c[3] = {0, 0, 0};
+        for (int d = 0; d < nd; d++) c[d] = g->getCoordinate(i, d) - S.shift[d];
+        fo[i] = extdrift(c, nd);
+      }
       g->addColumns(fo, "ext", ELoc::F);
     }
     S.dbout = g;
   }
   else
   {
-    VectorDouble t = {TX[0] + S.shiftx, TX[1] + S.shiftx, TY[0] + S.shifty, TY[1] + S.shifty};
-    VectorString tn = {"x1", "x2"}, tl = {"x1", "x2"};
-    if (S.drift == "EXT") { t.push_back(extdrift(TX[0], TY[0])); t.push_back(extdrift(TX[1], TY[1])); tn.push_back("ext"); tl.push_back("f1"); }
+    VectorDouble t; VectorString tn, tl;
+    for (int d = 0; d < nd; d++)
+    {
+      t.push_back(TC[0][d] + S.shift[d]); t.push_back(TC[1][d] + S.shift[d]);
+      tn.push_back("x" + std::to_string(d + 1)); tl.push_back("x" + std::to_string(d + 1));
+    }
+    if (S.drift == "EXT") { t.push_back(extdrift(TC[0], nd)); t.push_back(extdrift(TC[1], nd)); tn.push_back("ext"); tl.push_back("f1"); }
     S.dbout = Db::createFromSamples(2, ELoadBy::COLUMN, t, tn, tl, false);
   }
-  S.model = makeModel(S.imodel, S.nvar, S.drift);
-  if (S.neighKind == "moving") S.neigh = NeighMoving::create(false, 100, 12.);
-  else S.neigh = NeighUnique::create();
+  S.model = makeModel(S.imodel, S.nvar, S.drift, nd);
+  if (S.neighKind == "moving")
+  {
+    SpaceRN space(nd);
+    S.neigh = NeighMoving::create(false, 100, 12., 1, 1, 0, VectorDouble(), VectorDouble(), &space);
+  }
+  else
+  {
+    SpaceRN space(nd);
+    S.neigh = NeighUnique::create(false, &space);
+  }
 }
 
 // ------------------------------------------------------------------ independent term evaluator
 struct Eval
 {
-  const Setup& S; int itarget;
-  std::vector<std::vector<double>> disc;   // target points (1 for a point, ndisc for a block)
-  Eval(const Setup& s, int it) : S(s), itarget(it)
+  const Setup& S; int itarget; const Value& funcs;
+  std::vector<std::vector<double>> disc;   // target points (1 for a point, 2^ndim for a block)
+  std::vector<double> centre;
+  Eval(const Setup& s, int it, const Value& fn) : S(s), itarget(it), funcs(fn)
   {
-    double cx = S.dbout->getCoordinate(it, 0), cy = S.dbout->getCoordinate(it, 1);
+    int nd = S.ndim;
+    for (int d = 0; d < nd; d++) centre.push_back(S.dbout->getCoordinate(it, d));
     if (S.target == "block")
     {
       const DbGrid* g = dynamic_cast<const DbGrid*>(S.dbout);
-      int nd = 2;
-      for (int j = 0; j < nd; j++) for (int i = 0; i < nd; i++)
-        disc.push_back({cx + g->getDX(0) * ((i + 0.5) / nd - 0.5), cy + g->getDX(1) * ((j + 0.5) / nd - 0.5)});
+      int ntot = 1 << nd;
+      for (int i = 0; i < ntot; i++)
+      {
+        std::vector<double> p(nd);
+        for (int d = 0; d < nd; d++) { int j = (i >> d) & 1; p[d] = centre[d] + g->getDX(d) * ((j + 0.5) / 2. - 0.5); }
+        disc.push_back(p);
+      }
     }
-    else disc.push_back({cx, cy});
+    else disc.push_back(centre);
   }
-  std::vector<double> xy(int s) const { int r = S.order[s]; return {S.dbin->getCoordinate(r, 0), S.dbin->getCoordinate(r, 1)}; }
+  std::vector<double> xy(int s) const
+  {
+    int r = S.order[s]; std::vector<double> p(S.ndim);
+    for (int d = 0; d < S.ndim; d++) p[d] = S.dbin->getCoordinate(r, d);
+    return p;
+  }
   double cov(int v1, int v2, const std::vector<double>& a, const std::vector<double>& b) const
   {
-    SpacePoint p1(VectorDouble{a[0], a[1]}), p2(VectorDouble{b[0], b[1]});
+    SpacePoint p1(VectorDouble(a.begin(), a.end())), p2(VectorDouble(b.begin(), b.end()));
     return S.model->eval(p1, p2, v1, v2);
   }
-  double driftAt(int l, double x, double y, double fext) const
+  // drift function l (1-based) of the specification at a location (monomial of the coordinates or external drift)
+  double driftAt(int l, const std::vector<double>& x, double fext) const
   {
-    // drift functions of the specification: OK {1}; LIN {1, x1, x2}; EXT {1, f}
-    if (l == 1) return 1.;
-    if (S.drift == "LIN") return l == 2 ? x : y;
-    return fext;
+    const Value& f = funcs[l - 1];
+    if (f.at("kind").s() == "ext") return fext;
+    double r = 1.;
+    for (int d = 0; d < S.ndim; d++) for (int k = 0; k < f.at("p")[d].i(); k++) r *= x[d];
+    return r;
   }
   double term(const Value& t) const
   {
@@ -198,7 +245,7 @@ struct Eval
       int v = t[1].i() - 1, s = t[3].i() - 1;
       return cov(v, v, xy(s), xy(s)) + SV[v][s];
     }
-    if (code == 3) { int s = t[2].i() - 1; auto p = xy(s); return driftAt(t[1].i(), p[0], p[1], SF[s]); }
+    if (code == 3) { int s = t[2].i() - 1; return driftAt(t[1].i(), xy(s), SF[s]); }
     if (code == 4)
     {
       double acc = 0;
@@ -207,17 +254,16 @@ struct Eval
     }
     if (code == 5)
     {
-      // drift at the target (centre for a block: the drift functions used are linear or given at the node)
-      double cx = S.dbout->getCoordinate(itarget, 0), cy = S.dbout->getCoordinate(itarget, 1);
       double fext = S.drift == "EXT" ? S.dbout->getLocVariable(ELoc::F, itarget, 0) : 0.;
-      return driftAt(t[1].i(), cx, cy, fext);
+      if (S.target == "point") return driftAt(t[1].i(), centre, fext);
+      // block: mean of the drift function over the discretisation points (external drift: value of the cell)
+      double acc = 0;
+      for (auto& d : disc) acc += driftAt(t[1].i(), d, fext);
+      return acc / disc.size();
     }
     throw std::runtime_error("bad term");
   }
-  double c00(int v1, int v2) const   // point target only
-  {
-    return cov(v1, v2, disc[0], disc[0]);
-  }
+  double c00(int v1, int v2) const { return cov(v1, v2, disc[0], disc[0]); }   // point target only
 };
 
 static double maxabs(const Mat& m) { double s = 0; for (auto& r : m) for (double x : r) s = std::max(s, std::fabs(x)); return s; }
@@ -228,7 +274,7 @@ static Value analyse(const Value& cs, const std::string& neighKind, int imodel, 
   const Value& sys = cs.at("sys");
   Setup S; S.neighKind = neighKind; S.imodel = imodel;
   build(S, cfg, perm);
-  Eval E(S, itarget);
+  Eval E(S, itarget, cfg.at("funcs"));
   int nvar = S.nvar;
   int neq = (int)sys.at("eqs").size();
   Mat L(neq, std::vector<double>(neq)), R(neq, std::vector<double>(nvar));
@@ -254,7 +300,7 @@ static Value analyse(const Value& cs, const std::string& neighKind, int imodel, 
   }
 
   EKrigOpt calcul = S.target == "block" ? EKrigOpt::BLOCK : EKrigOpt::POINT;
-  VectorInt ndiscs; if (S.target == "block") ndiscs = {2, 2};
+  VectorInt ndiscs; if (S.target == "block") ndiscs = VectorInt(S.ndim, 2);
   Krigtest_Res kt = krigtest(S.dbin, S.dbout, S.model, S.neigh, itarget, calcul, ndiscs, false, false);
   int err = kriging(S.dbin, S.dbout, S.model, S.neigh, calcul, true, true, true, ndiscs);
 
@@ -325,13 +371,14 @@ static Value analyse(const Value& cs, const std::string& neighKind, int imodel, 
 
 // ------------------------------------------------------------------ C02: metamorphic relations
 struct KR { std::vector<double> est, sd; int err; std::vector<double> sumw; };
-static KR runKrig(const Value& cfg, const std::string& neighKind, int imodel, const std::vector<int>& perm, double sx, double sy,
+static KR runKrig(const Value& cfg, const std::string& neighKind, int imodel, const std::vector<int>& perm, bool shifted,
                   const std::vector<std::vector<double>>* zover, bool wantWeights = false, int itarget = 0)
 {
-  Setup S; S.neighKind = neighKind; S.imodel = imodel; S.shiftx = sx; S.shifty = sy;
+  Setup S; S.neighKind = neighKind; S.imodel = imodel;
+  if (shifted) for (int d = 0; d < 3; d++) S.shift[d] = SHIFT[d];
   build(S, cfg, perm, zover);
   EKrigOpt calcul = S.target == "block" ? EKrigOpt::BLOCK : EKrigOpt::POINT;
-  VectorInt ndiscs; if (S.target == "block") ndiscs = {2, 2};
+  VectorInt ndiscs; if (S.target == "block") ndiscs = VectorInt(S.ndim, 2);
   KR r;
   r.err = kriging(S.dbin, S.dbout, S.model, S.neigh, calcul, true, true, false, ndiscs);
   if (r.err == 0)
@@ -384,7 +431,7 @@ static Value meta(const Value& cs, const std::string& neighKind, int imodel)
   std::vector<int> id(ns), rev(ns);
   for (int i = 0; i < ns; i++) { id[i] = i; rev[i] = ns - 1 - i; }
   Value o = Value::object();
-  KR base = runKrig(cfg, neighKind, imodel, id, 0, 0, nullptr, true);
+  KR base = runKrig(cfg, neighKind, imodel, id, false, nullptr, true);
   o["err"] = Value(base.err);
   if (base.err != 0) return o;
   // finite, non negative standard deviation
@@ -392,10 +439,10 @@ static Value meta(const Value& cs, const std::string& neighKind, int imodel)
   for (double e : base.est) if (!std::isfinite(e)) fin = false;
   o["finite"] = Value(fin);
   // relabelling: permutation of the samples
-  KR p = runKrig(cfg, neighKind, imodel, rev, 0, 0, nullptr);
+  KR p = runKrig(cfg, neighKind, imodel, rev, false, nullptr);
   o["perm_est"] = Value(maxdiff(base.est, p.est)); o["perm_sd2"] = Value(maxdiff(base.sd, p.sd, 1e-3));
   // translation of all coordinates
-  KR t = runKrig(cfg, neighKind, imodel, id, 100.5, -37.25, nullptr);
+  KR t = runKrig(cfg, neighKind, imodel, id, true, nullptr);
   if (drift != "EXT") { o["trans_est"] = Value(maxdiff(base.est, t.est)); o["trans_sd"] = Value(maxdiff(base.sd, t.sd, 1e-3)); }
   // linearity in the data: krig(2 z + 3 w) = 2 krig(z) + 3 krig(w)  (known means: compare centred estimates)
   {
@@ -404,7 +451,7 @@ static Value meta(const Value& cs, const std::string& neighKind, int imodel)
     // the combination must then have coefficients summing to one
     double a = 2., b = (drift == "SK") ? -1. : 3.;
     for (int v = 0; v < nvar; v++) for (int s = 0; s < NMAX; s++) { w[v][s] = std::cos(1.7 * s + v) + 0.3 * s; c[v][s] = a * SZ[v][s] + b * w[v][s]; }
-    KR kw = runKrig(cfg, neighKind, imodel, id, 0, 0, &w), kc = runKrig(cfg, neighKind, imodel, id, 0, 0, &c);
+    KR kw = runKrig(cfg, neighKind, imodel, id, false, &w), kc = runKrig(cfg, neighKind, imodel, id, false, &c);
     std::vector<double> lhs, rhs;
     for (size_t i = 0; i < base.est.size(); i++)
     {
@@ -417,17 +464,28 @@ static Value meta(const Value& cs, const std::string& neighKind, int imodel)
   if (drift != "SK" && cfg.at("target").s() == "point")
   {
     std::vector<std::vector<double>> d(nvar, std::vector<double>(NMAX));
-    auto comb = [&](int v, double x, double y, double f) {
-      double a = 1.3 + v;
-      if (drift == "LIN") a += 0.7 * x - 0.45 * y;
-      if (drift == "EXT") a += 0.9 * f;
+    int ndim = cfg.at("ndim").i();
+    const Value& funcs = cfg.at("funcs");
+    auto comb = [&](int v, const double* x, double f) {
+      double a = 0.;
+      for (int l = 0; l < (int)funcs.size(); l++)
+      {
+        double fl = 1.;
+        if (funcs[l].at("kind").s() == "ext") fl = f;
+        else for (int d = 0; d < ndim; d++) for (int k = 0; k < funcs[l].at("p")[d].i(); k++) fl *= x[d];
+        a += (1.3 + v - 0.45 * l + 0.1 * l * l) * fl;
+      }
       return a;
     };
-    for (int v = 0; v < nvar; v++) for (int s = 0; s < NMAX; s++) d[v][s] = SZ[v][s] + comb(v, SX[s], SY[s], SF[s]);
-    KR kd = runKrig(cfg, neighKind, imodel, id, 0, 0, &d);
+    for (int v = 0; v < nvar; v++) for (int s = 0; s < NMAX; s++)
+    {
+      double x[3] = {SC[0][s], SC[1][s], SC[2][s]};
+      d[v][s] = SZ[v][s] + comb(v, x, SF[s]);
+    }
+    KR kd = runKrig(cfg, neighKind, imodel, id, false, &d);
     std::vector<double> want;
     for (int v = 0; v < nvar; v++) for (int tt = 0; tt < 2; tt++)
-      want.push_back(base.est[v * 2 + tt] + comb(v, TX[tt], TY[tt], extdrift(TX[tt], TY[tt])));
+      want.push_back(base.est[v * 2 + tt] + comb(v, TC[tt], extdrift(TC[tt], ndim)));
     o["drift_est"] = Value(maxdiff(kd.est, want)); o["drift_sd"] = Value(maxdiff(base.sd, kd.sd, 1e-3));
     // the weights sum to one for the own variable and to zero for the others
     double sw = 0; for (double x : base.sumw) sw = std::max(sw, std::fabs(x));
@@ -446,10 +504,12 @@ static Value exact(const Value& cs, const std::string& neighKind, int imodel)
   Setup S; S.neighKind = neighKind; S.imodel = imodel;
   build(S, cfg, id);
   // targets = the data locations themselves
-  VectorDouble t;
-  for (int s = 0; s < ns; s++) t.push_back(SX[s]);
-  for (int s = 0; s < ns; s++) t.push_back(SY[s]);
-  VectorString tn = {"x1", "x2"}, tl = {"x1", "x2"};
+  VectorDouble t; VectorString tn, tl;
+  for (int d = 0; d < S.ndim; d++)
+  {
+    for (int s = 0; s < ns; s++) t.push_back(SC[d][s]);
+    tn.push_back("x" + std::to_string(d + 1)); tl.push_back("x" + std::to_string(d + 1));
+  }
   if (S.drift == "EXT") { for (int s = 0; s < ns; s++) t.push_back(SF[s]); tn.push_back("ext"); tl.push_back("f1"); }
   Db* out = Db::createFromSamples(ns, ELoadBy::COLUMN, t, tn, tl, false);
   int err = kriging(S.dbin, out, S.model, S.neigh, EKrigOpt::POINT, true, true, false);
@@ -458,7 +518,7 @@ static Value exact(const Value& cs, const std::string& neighKind, int imodel)
   if (err == 0)
     for (int v = 0; v < nvar; v++)
     {
-      SpacePoint p(VectorDouble{0., 0.});
+      SpacePoint p(VectorDouble(S.ndim, 0.));
       double c00 = S.model->eval(p, p, v, v);
       c00max = std::max(c00max, c00);
       for (int s = 0; s < ns; s++)
@@ -491,7 +551,6 @@ int main(int argc, char** argv)
   if (!freopen("/dev/null", "w", stdout)) return 2;
   std::set_terminate([]() { onCrash(6); });
   signal(SIGSEGV, onCrash); signal(SIGABRT, onCrash); signal(SIGFPE, onCrash); signal(SIGBUS, onCrash);
-  defineDefaultSpace(ESpaceType::RN, 2);
   for (int ic = first; ic < (int)cases.size() && ic < first + count; ic++)
   {
     const Value& cs = cases[ic];
